@@ -542,11 +542,14 @@ class Calls:
         preds = self._edges[("preds",)]
         ws = set(base)
         mods = {f.mod for f in ws}
+        classes = {f.cls for f in ws if f.cls is not None}
         changed = True
         while changed:
             changed = False
             for g, ps in preds.items():
-                if g not in ws and g.cls is None and g.outer is None and g.mod in mods and ps and ps <= ws | {g} and g.name.startswith("_"):
+                private = g.name.startswith("_") and not g.name.startswith("__")
+                home = (g.cls is None and g.mod in mods) or (g.cls is not None and g.cls in classes)      # a private function of the module, or method of the class
+                if g not in ws and g.outer is None and home and ps and ps <= ws | {g} and private:
                     ws.add(g)
                     changed = True
         return ws
